@@ -22,7 +22,7 @@ fn setup<'a>(state: &'a DepthCell, remote: PortIdentity) -> (RPort<'a>, PortCfg,
 }
 
 // @harness c07_gate
-// @props C07 C03 C17
+// @props C07 C03:thorough C17:thorough
 // @tier quick
 // @variant lists2
 // @timeout 1800
@@ -75,7 +75,7 @@ fn announce_message<'a>(a: &AnnounceMessage, suffix: TlvSet<'a>) -> Message<'a> 
 }
 
 // @harness c07_announce_rejected
-// @props C07 C03 C17
+// @props C07 C03:thorough C17:thorough
 // @tier quick
 // @variant lists2
 // @stubbing yes
@@ -114,7 +114,7 @@ fn c07_announce_rejected() {
 }
 
 // @harness c07_slave_messages_in_other_states
-// @props C07 C08 C03 C17
+// @props C07 C08:thorough C03:thorough C17:thorough
 // @tier quick
 // @variant lists2
 // @timeout 1500
@@ -299,7 +299,7 @@ fn announce_step(with_suffix: bool) {
 fn c11_handle_announce() { announce_step(true) }
 
 // @harness c15_receive_forwarding
-// @props C15 C03
+// @props C15 C03:thorough
 // @tier quick
 // @variant lists2
 // @timeout 1800
